@@ -78,7 +78,7 @@ func c02Fragments(wide bool) []c02Frag {
 		{"idx64", c02EncInt(0x80, 7, 64, 0)},                                                           // beyond a 2-entry table
 		{"upd40", c02EncInt(0x20, 5, 40, 0)},                                                           // 2-byte integer; keeps one 34-byte entry
 		{"lit n15=gzip", c02Cat(c02EncInt(0x00, 4, 15, 0), c02EncStr("gzip", true))},                   // 4-bit prefix saturated: 0f 00
-		{"lit+idx long", c02Cat([]byte{0x40}, c02EncStr("kkkk", false), c02EncStr("0123456789", true))}, // 46-byte entry: does not fit 40
+		{"lit+idx kkkk=0123", c02Cat([]byte{0x40}, c02EncStr("kkkk", false), c02EncStr("0123", true))}, // 40-byte entry: fills a 40-byte table exactly
 		{"idx127", c02EncInt(0x80, 7, 127, 0)},                                                         // ff 00
 		{"lit badhuff", c02Cat([]byte{0x00}, c02EncStr("x", false), []byte{0x81, 0xff})},               // 8 bits of padding
 		{"upd4097", c02EncInt(0x20, 5, 4097, 0)},                                                       // above every configured limit
